@@ -147,6 +147,9 @@ fn short_forms() -> &'static Vec<(Ev, String)> {
             }
             if ev == Ev::Cpx {
                 a.push("(1+2i)");
+                // the bare unit and an imaginary literal as left factors (i sin(1), 2i(3))
+                a.push("i");
+                a.push("2i");
             }
             let mut b: Vec<&str> = vec!["(3)", "(1+2)", "abs(-3)", "sqrt(4)"];
             if vocab::has_floor_brackets(ev) {
@@ -162,6 +165,30 @@ fn short_forms() -> &'static Vec<(Ev, String)> {
             }
             if vocab::has_deg(ev) {
                 right.push("°");
+            }
+            // three-factor chains: every kind of factor in every position (a look-ahead that decides from the token
+            // after the second factor has to know every way a third factor can start)
+            let mut cs: Vec<&str> = b.clone();
+            cs.push("5");
+            for l in ["", "6/", "-", "2^", "7-"] {
+                for x in &a {
+                    for y in &b {
+                        for z in &cs {
+                            for s in ["", "²", "^2"] {
+                                if *z == "5" && (y.ends_with(|c: char| c.is_ascii_digit())) {
+                                    continue;
+                                }
+                                out.push((ev, format!("{}{}{}{}{}", l, x, y, z, s)));
+                            }
+                        }
+                        // literal second factor, bracketed third
+                        if *x != "2" && *x != "2i" {
+                            for z in &b {
+                                out.push((ev, format!("{}3{}", x, z)));
+                            }
+                        }
+                    }
+                }
             }
             for l in &left {
                 for x in &a {
@@ -287,7 +314,7 @@ impl Prop for C12Prop {
         "C12"
     }
     fn rule(&self) -> String {
-        "Exhaustive short forms: left context {ε, 6/, 7%, 2*, 2+, 1-, 2^, -, +, (, 3&, 1|, 1<<, …} x A {literal, ( ), ⌊ ⌋, ⌈ ⌉, call, factorial} x B {( ), ⌊ ⌋, ⌈ ⌉, call, literal after a non-literal A} x suffix {ε, ^2, ², !, !^2, ^2!, ²!} x right context {ε, *2, +1, ^2, !, °, (2)} per evaluator; juxtaposition chains of 2..512 factors and sums of 2..512 implicit products; random trees (depth <=5) with juxtaposition nodes in every context; rejection block: every constant, @, superscript, ° and rad placed so that it would have to start or continue a product, alone and embedded, and the same shapes behind every kind of left factor (every function name and alias as a call, every bracket kind, literal, factorial). Oracles: (a) each juxtaposition A R of the reference parse rewritten to (A*(R)) - all at once and one at a time - must give the same outcome bit for bit; (b) exact reference evaluation of the reference parse; (c) rejection block must be Err. non-trivial = a product that is an operand of an operator of multiplicative or tighter level or of a prefix sign, or whose right factor carries a suffix; rejection cases are counted separately (class rejection-block) and included in distinct.".into()
+        "Exhaustive short forms: left context {ε, 6/, 7%, 2*, 2+, 1-, 2^, -, +, (, 3&, 1|, 1<<, …} x A {literal, ( ), ⌊ ⌋, ⌈ ⌉, call, factorial} x B {( ), ⌊ ⌋, ⌈ ⌉, call, literal after a non-literal A} x suffix {ε, ^2, ², !, !^2, ^2!, ²!} x right context {ε, *2, +1, ^2, !, °, (2)} per evaluator; three-factor chains with every kind of factor in every position; juxtaposition chains of 2..512 factors and sums of 2..512 implicit products; random trees (depth <=5) with juxtaposition nodes in every context; rejection block: every constant, @, superscript, ° and rad placed so that it would have to start or continue a product, alone and embedded, and the same shapes behind every kind of left factor (every function name and alias as a call, every bracket kind, literal, factorial). Oracles: (a) each juxtaposition A R of the reference parse rewritten to (A*(R)) - all at once and one at a time - must give the same outcome bit for bit; (b) exact reference evaluation of the reference parse; (c) rejection block must be Err. non-trivial = a product that is an operand of an operator of multiplicative or tighter level or of a prefix sign, or whose right factor carries a suffix; rejection cases are counted separately (class rejection-block) and included in distinct.".into()
     }
     fn subs(&self, tier: Tier) -> Vec<Sub> {
         vec![
